@@ -88,3 +88,64 @@ def date_str_of_ordinal(o):
 def first_match(start_ord, day):
     """ordinal of the first day >= start_ord whose weekday (Monday = 0) is `day`"""
     return start_ord + (day - weekday_of_ordinal(start_ord)) % 7
+
+
+def monday_of(o):
+    """ordinal of the Monday of the ISO week containing ordinal o"""
+    return o - weekday_of_ordinal(o)
+
+
+def next_leap_at_or_after(y):
+    """smallest leap year >= y (valid while no two consecutive non-leap centuries: fine for 1900..2099)"""
+    for k in range(0, 9):
+        if is_leap(y + k):
+            return y + k
+    return y + 8
+
+
+def prev_leap_at_or_before(y):
+    for k in range(0, 9):
+        if is_leap(y - k):
+            return y - k
+    return y - 8
+
+
+def earliest_on_or_after(month, day, ref_ord, ref_year):
+    """ordinal of the earliest date with this (month, day) whose ordinal is >= ref_ord (ref_year = year of ref_ord)"""
+    if month == 2 and day == 29:
+        y = next_leap_at_or_after(ref_year)
+        if ordinal(y, 2, 29) >= ref_ord:
+            return ordinal(y, 2, 29)
+        y2 = next_leap_at_or_after(y + 1)
+        return ordinal(y2, 2, 29)
+    if ordinal(ref_year, month, day) >= ref_ord:
+        return ordinal(ref_year, month, day)
+    return ordinal(ref_year + 1, month, day)
+
+
+def latest_before(month, day, ref_ord, ref_year):
+    """ordinal of the latest date with this (month, day) whose ordinal is < ref_ord"""
+    if month == 2 and day == 29:
+        y = prev_leap_at_or_before(ref_year)
+        if ordinal(y, 2, 29) < ref_ord:
+            return ordinal(y, 2, 29)
+        y2 = prev_leap_at_or_before(y - 1)
+        return ordinal(y2, 2, 29)
+    if ordinal(ref_year, month, day) < ref_ord:
+        return ordinal(ref_year, month, day)
+    return ordinal(ref_year - 1, month, day)
+
+
+def pt_duration_str(total):
+    """'PT…H…M…S' denoting `total` seconds (hours unbounded, zero components omitted)"""
+    h = total // 3600
+    m = total % 3600 // 60
+    s = total % 60
+    out = 'PT'
+    if h > 0:
+        out = out + str(h) + 'H'
+    if m > 0:
+        out = out + str(m) + 'M'
+    if s > 0:
+        out = out + str(s) + 'S'
+    return out
